@@ -49,11 +49,33 @@ fn matrix() -> impl Strategy<Value = [[f32; 3]; 3]> {
         // near-singular: two nearly equal rows
         1 => (vec3(), vec3(), -1e-2f32..1e-2).prop_map(|(r, q, e)| [r, [(r[0] + e).clamp(-2.0, 2.0), r[1], r[2]], q]),
         1 => (0usize..6).prop_map(|i| colour_matrices()[i]),
+        // rotations (Euler angles), exactly or nearly orthonormal: scaled by 1 + eps, entries perturbed by eps
+        2 => (0.0f64..6.3, 0.0f64..6.3, 0.0f64..6.3, prop_oneof![Just(0.0f64), (-7.0f64..-2.0).prop_map(|e| 10f64.powf(e))], any::<bool>(), any::<u64>()).prop_map(|(a, b, c, eps, neg, seed)| {
+            let (sa, ca, sb, cb, sc, cc) = (a.sin(), a.cos(), b.sin(), b.cos(), c.sin(), c.cos());
+            let r = [
+                [cb * cc, sa * sb * cc - ca * sc, ca * sb * cc + sa * sc],
+                [cb * sc, sa * sb * sc + ca * cc, ca * sb * sc - sa * cc],
+                [-sb, sa * cb, ca * cb],
+            ];
+            let mut e = Expand(seed);
+            let scale = if e.below(2) == 0 { 1.0 + eps * if neg { -1.0 } else { 1.0 } } else { 1.0 };
+            let mut m = [[0f32; 3]; 3];
+            for i in 0..3 {
+                for j in 0..3 {
+                    let pert = if scale == 1.0 { eps * (2.0 * e.unit() - 1.0) } else { 0.0 };
+                    m[i][j] = (r[i][j] * scale + pert) as f32;
+                }
+            }
+            m
+        }),
     ]
 }
 
 pub fn strategy() -> BoxedStrategy<Case> {
-    (matrix(), matrix(), vec3(), vec3(), prop_oneof![(0.25f32..=2.0), (-2.0f32..=-0.25)])
+    (matrix(), matrix(), vec3(), vec3(), prop_oneof![4 => (0.25f32..=2.0), 4 => (-2.0f32..=-0.25), 1 => (-44i32..=38, any::<bool>()).prop_map(|(e, n)| {
+            let s = (10f64.powi(e) as f32) * if n { -1.0 } else { 1.0 };
+            if s == 0.0 || !s.is_finite() { 1.0 } else { s }
+        })])
         .prop_map(|(a, b, u, v, s)| Case { a, b, u, v, s })
         .boxed()
 }
@@ -137,7 +159,12 @@ fn check_inner(c: &Case, st: &mut Stats) -> Result<(), String> {
         if !close(ru.dot(&rv) as f64, dot) {
             return Err(format!("f32 dot = {:e}, exact {:e}", ru.dot(&rv), dot));
         }
-        cmp_vec("f32 scalar_div", v64(ru.scalar_div(s).values()), [u6[0] / s6, u6[1] / s6, u6[2] / s6], &mut worst)?;
+        // scalars of any magnitude (incl. subnormal): compared where the exact quotients are zero or normal f32 values
+        let q_ok = |q: f64| q == 0.0 || (q.abs() > 1e-37 && q.abs() < 1e37);
+        let sd_ok = u6.iter().all(|x| q_ok(x / s6)) && a6.iter().flatten().all(|x| q_ok(x / s6));
+        if sd_ok {
+            cmp_vec("f32 scalar_div", v64(ru.scalar_div(s).values()), [u6[0] / s6, u6[1] / s6, u6[2] / s6], &mut worst)?;
+        }
         cmp_vec("f32 component_mul", v64(ru.component_mul(&rv).values()), [u6[0] * v6[0], u6[1] * v6[1], u6[2] * v6[2]], &mut worst)?;
         let sd = ma.scalar_div(s).values();
         let mut ex = a6;
@@ -146,7 +173,11 @@ fn check_inner(c: &Case, st: &mut Stats) -> Result<(), String> {
                 *x /= s6;
             }
         }
-        cmp_mat("f32 Matrix::scalar_div", up(sd), ex, &mut worst)?;
+        if sd_ok {
+            cmp_mat("f32 Matrix::scalar_div", up(sd), ex, &mut worst)?;
+        } else {
+            st.class("scalar_div_quotient_outside_f32_normal_range_not_compared", 1);
+        }
         // accessors
         if [ru.x(), ru.y(), ru.z()] != u || RowVector::from(u).values() != u || ColVector::from(u).values() != u {
             return Err("f32 vector accessors/From disagree".into());
@@ -292,4 +323,4 @@ pub fn replay(v: &Value) -> Result<(), String> {
     check(&c, &mut Stats::new()).map_err(|v| v.message)
 }
 
-pub const RULE: &str = "cases = (A, B 3x3 matrices, u, v 3-vectors, scalar s) with entries in [-2,2] generated by proptest: uniform, small integers, quarter steps, tiny values; structured matrices: diagonal, scaled permutation, near-singular (two nearly equal rows), colour matrices; every public method of Matrix/RowVector/ColVector in both the f32 and the f64 instantiation compared with naive f64 loops (tol 1e-5*max(1,|exact|)); transpose involution and identity neutrality exact; for |det| >= 0.5 A*inv(A) and inv(A)*A within 1e-4 of I and the f32/f64 inverses agree; non-trivial = A and u non-zero; distinct = by hash of all entries' bits";
+pub const RULE: &str = "cases = (A, B 3x3 matrices, u, v 3-vectors, scalar s) with entries in [-2,2] generated by proptest: uniform, small integers, quarter steps, tiny values; structured matrices: diagonal, scaled permutation, near-singular (two nearly equal rows), colour matrices, rotations and nearly orthonormal matrices (scaled by 1+-eps or perturbed by eps, eps log-uniform 1e-7..1e-2); scalars in +-[0.25,2] and of every decimal magnitude 1e-44..1e38 (quotients compared where they are zero or normal f32 values); every public method of Matrix/RowVector/ColVector in both the f32 and the f64 instantiation compared with naive f64 loops (tol 1e-5*max(1,|exact|)); transpose involution and identity neutrality exact; for |det| >= 0.5 A*inv(A) and inv(A)*A within 1e-4 of I and the f32/f64 inverses agree; non-trivial = A and u non-zero; distinct = by hash of all entries' bits";
